@@ -730,14 +730,14 @@ class C18(Property):
                 if 0 <= smaller < n:
                     for tail in ([], extra[:1]):
                         yield dict(case, outcomes=case["outcomes"][:smaller],
-                                   events=inorder_events(smaller, max(resolved, 1)) + tail)
+                                   events=tail + inorder_events(smaller, max(resolved, 1)))
             if resolved > 2:
                 workers = 2
                 yield dict(case, cpus=workers if case["cpus"] else 0, config_cpus=workers if not case["cpus"] else case["config_cpus"],
-                           events=inorder_events(n, workers) + extra[:1])
+                           events=extra[:1] + inorder_events(n, workers))
             ordered = inorder_events(n, max(resolved, 1))
             if [e for e in case["events"] if e[0] == "done"] != ordered:
-                yield dict(case, events=ordered + extra[:1])
+                yield dict(case, events=extra[:1] + ordered)
             for i, out in enumerate(case["outcomes"]):
                 if out[0] not in ("ok", "rc"):
                     fixed = list(case["outcomes"])
